@@ -113,6 +113,9 @@ class Trie(object):
             return
 
         tokens = [t for t in get_tokens(tokens_string) if t.strip()]
+        if not tokens:
+            # a blank string has no tokens: ignore it like an empty string
+            return
 
         # we keep track of the set of tokens added to the trie to build the
         # automaton these are needed to created the first level children failure
